@@ -7,6 +7,7 @@ import (
 	"math/rand"
 	"slices"
 	"strings"
+	"sync"
 	"time"
 
 	"github.com/gammazero/nexus/v3/stdlog"
@@ -99,6 +100,10 @@ type dealer struct {
 
 	actionChan chan func()
 	stopped    chan struct{}
+
+	// Call timeout goroutines. They post to actionChan, so close() waits for
+	// them before closing it.
+	timers sync.WaitGroup
 
 	// Generate registration IDs.
 	idGen *wamp.IDGen
@@ -417,6 +422,17 @@ func (d *dealer) removeSession(sess *wamp.Session) {
 
 // close stops the dealer, letting already queued actions finish.
 func (d *dealer) close() {
+	// Stop the timers of calls that are still pending, and wait for their
+	// goroutines to finish. A timer that fires later would otherwise post its
+	// cancel action to the closed action channel.
+	d.actionChan <- func() {
+		for _, invk := range d.invocations {
+			if invk.timerCancel != nil {
+				invk.timerCancel()
+			}
+		}
+	}
+	d.timers.Wait()
 	close(d.actionChan)
 	<-d.stopped
 	if d.debug {
@@ -930,7 +946,9 @@ func (d *dealer) syncCall(caller *wamp.Session, msg *wamp.Call) {
 		// Start goroutine to cancel pending call on timeout. Works like Cancel
 		// with mode=killnowait, and includes an error message argument "call
 		// timeout"
+		d.timers.Add(1)
 		go func() {
+			defer d.timers.Done()
 			<-timerCtx.Done()
 			if errors.Is(timerCtx.Err(), context.Canceled) {
 				// Timer canceled. Got response from callee, or caller canceled
